@@ -13,6 +13,8 @@ import NrDaemon.Driver.Redact
 import NrDaemon.Driver.SpanQueue
 import NrDaemon.Driver.Trigger
 import NrDaemon.Driver.Race
+import NrDaemon.Driver.Pid
+import NrDaemon.Driver.Watch
 /-!
   Op-line driver (core Lean only; built as a `lean_exe`).
 
@@ -27,6 +29,8 @@ structure DState where
   lim : LimEng := {}
   sq : SQEng := {}
   trig : TrigEng := {}
+  pid : PidEng := {}
+  watch : WatchEng := {}
 
 def dispatch (st : DState) (line : String) (impl : Option String) : DState × StepOut :=
   let t := tokenize line
@@ -47,6 +51,8 @@ def dispatch (st : DState) (line : String) (impl : Option String) : DState × St
   | some "flags" => (st, flagsStep t impl)
   | some "argv" => (st, argvStep t impl)
   | some "redact" => (st, redactStep t impl)
+  | some "watch" => let (c, o) := watchStep st.watch t impl; ({ st with watch := c }, o)
+  | some "pid" => let (c, o) := pidStep st.pid t impl; ({ st with pid := c }, o)
   | some "race" => (st, raceStep t impl)
   | some "tostress" => (st, { model := "done" })
   | some "trig" => let (c, o) := trigStep st.trig t impl; ({ st with trig := c }, o)
